@@ -11,6 +11,7 @@ interactive-builder results, in-process CLI output / exit status.
 from __future__ import print_function, unicode_literals
 
 import io
+import os
 import json
 import sys
 
@@ -183,9 +184,25 @@ with io.open(corpus_path, encoding="utf-8") as f:
     C = json.load(f)
 R = {"python": list(sys.version_info[:3]), "cvss_version": txt(cvss.__version__),
      "exports": sorted(txt(n) for n in dir(cvss) if not n.startswith("_"))}
-R["construct"] = [also_native(construct, v, s) for v, s in C["construct"]]
-R["rh"] = [also_native(rh, v, s) for v, s in C["rh"]]
-R["text"] = [also_native(text, t) for t in C["text"]]
+import logging  # noqa: E402
+
+_root = logging.getLogger()
+_devnull = logging.StreamHandler(open(os.devnull, "w"))
+_root.addHandler(_devnull)
+
+
+def with_logging(i, fn, *args):
+    """Every other item runs the way an application with DEBUG logging enabled (handler attached) would run it."""
+    _root.setLevel(logging.DEBUG if i % 2 else logging.WARNING)
+    try:
+        return fn(*args)
+    finally:
+        _root.setLevel(logging.WARNING)
+
+
+R["construct"] = [with_logging(i, also_native, construct, v, s) for i, (v, s) in enumerate(C["construct"])]
+R["rh"] = [with_logging(i, also_native, rh, v, s) for i, (v, s) in enumerate(C["rh"])]
+R["text"] = [with_logging(i, also_native, text, t) for i, t in enumerate(C["text"])]
 R["ask"] = [ask(v, a, ans) for v, a, ans in C["ask"]]
 R["cli"] = [cli(argv, ans) for argv, ans in C["cli"]]
 with io.open(out_path, "w", encoding="utf-8") as f:
